@@ -1,4 +1,5 @@
 import IkeProofs.Refine.Transfer
+import IkeProofs.RefineEap.Glue
 import IkeProofs.Theorems.C04
 
 /-! # C04 over the code as translated from the current source
@@ -41,5 +42,24 @@ theorem C04_gen_Decode_is_model (b : Bytes) : genDecode b = (decodeMsg b).map so
 
 example : IKEMessage.Decode {} [] = .err := by decide
 example : newPayload 41 0 = some (.Notification {}) := rfl
+
+end Ike
+
+/-! ### EAP decoders (package `eap` as translated) -/
+
+namespace Ike
+open Ike.RefineEap
+
+/-- `eap.(*EAP).Unmarshal` never panics and its attribute loop terminates within its bound -/
+theorem C04_gen_EAP_Unmarshal_never_faults (b : Bytes) : Gen.eap.EAP.Unmarshal {} b ≠ .fault := by
+  have h : (Gen.eap.EAP.Unmarshal {} b).map GenAbs.absEap ≠ .fault := by
+    rw [Gen_EAP_Unmarshal]; exact C04_no_fault_unmarshalEap b
+  exact Ike.Refine.map_ne_fault h
+
+/-- `eap.(*EapAkaPrime).Unmarshal` -/
+theorem C04_gen_AKA_Unmarshal_never_faults (b : Bytes) : Gen.eap.EapAkaPrime.Unmarshal {} b ≠ .fault := by
+  have h : (Gen.eap.EapAkaPrime.Unmarshal {} b).map GenAbs.absAka ≠ .fault := by
+    rw [EapAkaPrime_Unmarshal_refines]; exact (C04_no_fault_eap_methods b).2.2
+  exact Ike.Refine.map_ne_fault h
 
 end Ike
